@@ -115,7 +115,10 @@ let parse_obs (f : string array) (i : int) : M.obs =
     ob_contents = List.map (fun c -> match String.split_on_char ':' c with
         | [k; sz; et] -> (bytes_of_hex k, (z_of_int (int_of_string sz), bytes_of_hex et))
         | _ -> failwith "bad content") (split_on ',' f.(i+10));
-    ob_truncated = bool_of_field f.(i+11); ob_next = bytes_of_hex f.(i+12) }
+    ob_truncated = bool_of_field f.(i+11); ob_next = bytes_of_hex f.(i+12);
+    ob_versions = (if Array.length f > i + 13 then List.map (fun v -> match String.split_on_char ':' v with
+        | [id; mk; lt] -> (bytes_of_hex (if id = "" then "-" else id), (mk = "1", lt = "1"))
+        | _ -> failwith "bad version entry") (split_on ',' f.(i+13)) else []) }
 
 let arrow_index (f : string array) : int =
   let r = ref (-1) in Array.iteri (fun i x -> if x = "=>" && !r < 0 then r := i) f; !r
@@ -141,6 +144,9 @@ let parse_hop (f : string array) : M.hop =
       | _ -> failwith "bad part") (split_on ',' f.(6)))
   | "abort" -> M.HAbort (h 3, h 4, h 5)
   | "lsp" -> M.HListParts (h 3, h 4, h 5, z_of_int (int_of_string f.(6)), z_of_int (int_of_string f.(7)))
+  | "lsv" ->
+    let d = if f.(5) = "-" then None else (match bytes_of_hex f.(5) with [c] -> Some c | _ -> failwith "multi-byte delimiter") in
+    M.HListVersions (h 3, h 4, d, h 6, h 7, z_of_int (int_of_string f.(8)))
   | "cput" -> M.HChunkedPut (h 3, h 4, h 5, sched_of f.(6), bool_of_field f.(7), z_of_int (int_of_string f.(8)), h 9)
   | "lsu" ->
     let d = if f.(5) = "-" then None else (match bytes_of_hex f.(5) with [c] -> Some c | _ -> failwith "multi-byte delimiter") in
@@ -178,9 +184,11 @@ let hist lineno (f : string array) =
     let (st', l) = M.hist_step md5 !hist_cfg !hist_state o ob in
     hist_state := st';
     (match o with
-     | (M.HListParts _ | M.HListUploads _) when !ew_mode > 0 ->
+     | (M.HListParts _ | M.HListUploads _ | M.HListVersions _) when !ew_mode > 0 ->
        (* entry identity: key/part-number + id string *)
-       let ents = List.map (fun (k, (_, e)) -> (match o with M.HListParts _ -> k | _ -> k @ [ntab.(0)] @ e)) ob.M.ob_contents in
+       let ents = (match o with
+         | M.HListVersions _ -> List.map2 (fun (k, _) (id, _) -> k @ [ntab.(0)] @ id) ob.M.ob_contents ob.M.ob_versions
+         | _ -> List.map (fun (k, (_, e)) -> (match o with M.HListParts _ -> k | _ -> k @ [ntab.(0)] @ e)) ob.M.ob_contents) in
        if !ew_mode = 2 then (ew_full := Some (ents, ob.M.ob_names); ew_mode := 1)
        else (ew_pages := !ew_pages @ [ents]; ew_pre := !ew_pre @ [ob.M.ob_names])
      | M.HList _ when !walk_mode > 0 ->
